@@ -63,7 +63,10 @@ def handshake(
     headers, key = _get_handshake_headers(resource, url, hostname, port, options)
 
     header_str = "\r\n".join(headers)
-    send(sock, header_str)
+    data = header_str.encode("utf-8")
+    while data:
+        # the transport may accept only part of the request at a time
+        data = data[send(sock, data) :]
     dump("request header", header_str)
 
     status, resp = _get_resp_headers(sock)
